@@ -1367,6 +1367,11 @@ func (f *fnTrans) checkInvariants(li *loopInfo, kind string, from *ssa.BasicBloc
 	for i, cl := range li.spec.Invariants {
 		t, err := env.EvalBool(cl.Expr)
 		if err != nil {
+			if strings.Contains(err.Error(), "unknown identifier") {
+				o := f.oblige(kind, fmt.Sprintf("loop %d invariant %d (%s): %s  [cannot be stated on this code: %v]", li.ord, i, kind, cl.Src, err), li.header.Instrs[0].Pos(), f.propsOf(cl), guard, False)
+				o.Name = fmt.Sprintf("%s/loop%d/inv%d/%s", f.name, li.ord, i, strings.TrimPrefix(kind, "inv-"))
+				continue
+			}
 			f.unsupported("%s: invariant %q: %v", cl.Line, cl.Src, err)
 			continue
 		}
@@ -1864,6 +1869,11 @@ func (f *fnTrans) atAnchor(ins ssa.Instruction) {
 	for k, cl := range cls {
 		t, err := env.EvalBool(cl.Expr)
 		if err != nil {
+			if cl.Kind != "assume" && strings.Contains(err.Error(), "unknown identifier") {
+				o := f.oblige("lemma", fmt.Sprintf("at %s: %s  [cannot be stated on this code: %v]", a, cl.Src, err), ins.Pos(), f.propsOf(cl), f.here(), False)
+				o.Name = fmt.Sprintf("%s/at:%s/lemma%d", f.name, a, k)
+				continue
+			}
 			f.unsupported("%s: at %s: %v", cl.Line, a, err)
 			continue
 		}
